@@ -591,6 +591,29 @@ func legacyXorRules(o *Obligation, f *ssa.Function, fset *token.FileSet) {
 			}
 		}
 	}
+	// routines that no path of this configuration reaches (the byte-wise fallback where the architecture constant
+	// folds the dispatch) are selected on other architectures: they are held to the same rules
+	sort.Slice(routines, func(i, j int) bool { return routines[i].Pos() < routines[j].Pos() })
+	for _, g := range routines {
+		if doneLoops[g] || len(g.Blocks) == 0 || g == f {
+			continue
+		}
+		isBytes := func(t types.Type) bool {
+			sl, ok := t.Underlying().(*types.Slice)
+			if !ok {
+				return false
+			}
+			bt, ok := sl.Elem().Underlying().(*types.Basic)
+			return ok && bt.Kind() == types.Byte
+		}
+		ps := g.Signature.Params()
+		if !isBytes(ps.At(0).Type()) || !isBytes(ps.At(1).Type()) || !isBytes(ps.At(2).Type()) {
+			continue
+		}
+		doneLoops[g] = true
+		o.Sites = append(o.Sites, pos(g.Pos())+" routine "+g.Name()+" (not dispatched in this configuration)")
+		xorLoops(o, g, pos)
+	}
 	o.Sites = append(o.Sites, fmt.Sprintf("%s %d paths of XorBytes return n = min(len(%s), len(%s)) (0 only when that is 0)", pos(f.Pos()), nPaths, a.Name(), b.Name()))
 	if nPaths == 0 {
 		o.Fail(token.NoPos, "%s: XorBytes has no returning path", pos(f.Pos()))
@@ -640,6 +663,78 @@ func xorLoops(o *Obligation, g *ssa.Function, pos func(token.Pos) string) {
 		}
 		if idxOf(x.X) != ia.Index || idxOf(x.Y) != ia.Index {
 			o.Fail(token.NoPos, "%s: the xor loop of %s does not use the same index for destination and both operands", pos(in.Pos()), g.Name())
+			return
+		}
+		// dst[i] = a[i] ^ b[i]: the element stored is computed from the two sources, not from the destination
+		// itself (dst[i] ^= b[i] after a copy reads what was just overwritten when dst is exactly b)
+		sliceOf := func(v ssa.Value) int {
+			var base ssa.Value
+			if u, ok := v.(*ssa.UnOp); ok {
+				if i2, ok := origin(u.X).(*ssa.IndexAddr); ok {
+					base = i2.X
+				}
+			} else if i2, ok := v.(*ssa.IndexAddr); ok {
+				base = i2.X
+			}
+			if base == nil {
+				return -1
+			}
+			// back to the routine's parameter: through re-slicing, word views made with unsafe
+			// (*(*[]uintptr)(unsafe.Pointer(&dst)), unsafe.Slice((*uintptr)(unsafe.Pointer(&dst[0])), w)) and the
+			// local cell a parameter lives in once its address is taken
+			cur := base
+			for d := 0; d < 16 && cur != nil; d++ {
+				for k := 0; k < 3 && k < len(g.Params); k++ {
+					if cur == ssa.Value(g.Params[k]) {
+						return k
+					}
+				}
+				switch y := cur.(type) {
+				case *ssa.UnOp:
+					cur = y.X
+				case *ssa.Convert:
+					cur = y.X
+				case *ssa.ChangeType:
+					cur = y.X
+				case *ssa.Slice:
+					cur = y.X
+				case *ssa.IndexAddr:
+					cur = y.X
+				case *ssa.Phi:
+					cur = nil
+				case *ssa.Call:
+					if b, ok := y.Call.Value.(*ssa.Builtin); ok && b.Name() == "Slice" && len(y.Call.Args) == 2 {
+						cur = y.Call.Args[0]
+					} else {
+						cur = nil
+					}
+				case *ssa.Alloc:
+					var stored []ssa.Value
+					if refs := y.Referrers(); refs != nil {
+						for _, rf := range *refs {
+							if st, ok := rf.(*ssa.Store); ok && st.Addr == ssa.Value(y) {
+								stored = append(stored, st.Val)
+							}
+						}
+					}
+					if len(stored) == 1 {
+						cur = stored[0]
+					} else {
+						cur = nil
+					}
+				default:
+					if o := origin(cur); o != cur {
+						cur = o
+					} else {
+						cur = nil
+					}
+				}
+			}
+			return -1
+		}
+		sd, sx, sy := sliceOf(ia), sliceOf(x.X), sliceOf(x.Y)
+		if sd != 0 || !((sx == 1 && sy == 2) || (sx == 2 && sy == 1)) {
+			o.Fail(token.NoPos, "%s: the element stored by %s is not a[i] ^ b[i] into dst[i] (slices: destination #%d, operands #%d and #%d of the routine's parameters)", pos(in.Pos()), g.Name(), sd, sx, sy)
 			return
 		}
 		var init ssa.Value
@@ -732,6 +827,9 @@ func xorLoops(o *Obligation, g *ssa.Function, pos func(token.Pos) string) {
 					o.Fail(token.NoPos, "%s: %s writes memory outside the recognised element-wise xor loops (%s): bytes already produced can be overwritten, e.g. when dst is exactly a or b", pos(in.Pos()), h.Name(), x.String())
 				}
 			case *ssa.Call:
+				if b, isB := x.Call.Value.(*ssa.Builtin); isB && (b.Name() == "copy" || b.Name() == "clear") {
+					o.Fail(token.NoPos, "%s: %s writes memory with %s outside the recognised element-wise xor loops: with dst exactly a or b an operand is overwritten before it is read", pos(in.Pos()), h.Name(), b.Name())
+				}
 				if sc := x.Call.StaticCallee(); sc != nil && sc.Pkg == g.Pkg && len(sc.Blocks) > 0 && sc != g {
 					if sc.Signature.Params().Len() == 4 {
 						if !xorChecked[sc] {
